@@ -56,6 +56,8 @@ structure DirInv (c : Nat) (a : SrcV) (b : SinkV) : Prop where
   stopOk : hasStop c a.out = true → a.ownShutW = true
   -- at most one CONNECT of the channel is ever in flight, and only while the sink was never created
   connOk : nConnect c a.out = 0 ∨ (nConnect c a.out = 1 ∧ b.ever = false)
+  -- once the source is done, its EOF is in flight, or the sink has processed it, or the sink's socket is shut
+  eofSeen : noMore a → hasEof c a.out = true ∨ (b.ever = true ∧ b.mwShutR = true) ∨ b.sawShut = true
 
 /-! ### transitions of the source view -/
 
@@ -79,7 +81,8 @@ inductive SrcStep (c : Nat) (k : Bool) : SrcV → SrcV → Prop
       (hos : a.ownShutW = true → os = true)
       (hk : w = true → a.mwShutW = true ∨ k = true) :       -- STOP_SENDING arrives only after the sink shut
       SrcStep c k a { a with shutR := r, mwShutW := w, ownShutW := os }
-  | remove (a : SrcV) (hp : a.present = true) (hb : a.buf = [] ∨ k = true) :
+  | remove (a : SrcV) (hp : a.present = true) (hb : a.buf = [] ∨ k = true)
+      (hd : (a.mwShutW = true ∧ a.shutR = true) ∨ k = true) :       -- only a finished handler is dropped
       SrcStep c k a { a with present := false, buf := [] }
   | create (a : SrcV) (he : a.ever = false) (r os : Bool) (hos : a.ownShutW = true → os = true) :
       SrcStep c k a { a with present := true, ever := true, buf := [], shutR := r, mwShutW := false, ownShutW := os }
@@ -158,7 +161,8 @@ theorem DirInv.appendInert {c : Nat} {a : SrcV} {b : SinkV} (h : DirInv c a b) (
   have hdo : dataOf c (a.out ++ [fr]) = dataOf c a.out := by
     rw [dataOf_append, dataOf_single_other _ _ hd, List.append_nil]
   refine { h with exact := ?_, conn := ?_, fresh := ?_, clean := ?_, eofNM := ?_, gone := ?_, stopOk := ?_,
-                  connOk := by rw [nConnect_append_single _ _ _ hcn]; exact h.connOk }
+                  connOk := by rw [nConnect_append_single _ _ _ hcn]; exact h.connOk,
+                  eofSeen := fun nm => (h.eofSeen nm).imp_left (fun hh => by rw [hasEof_append, hh]; rfl) }
   · rcases h.exact with hs | he'
     · exact Or.inl hs
     · exact Or.inr (by simp only [hdo]; exact he')
@@ -208,7 +212,8 @@ theorem DirInv.srcStep {c : Nat} {a a' : SrcV} {b : SinkV} (h : DirInv c a b)
       rcases nm.2 with h1 | ⟨_, _, h3⟩
       · rw [hp] at h1; cases h1
       · rw [hr] at h3; cases h3
-    refine { h with pre := ?_, exact := ?_, fresh := ?_, eofNM := ?_, gone := ?_, srcBuf := ?_, nl1 := ?_ }
+    refine { h with pre := ?_, exact := ?_, fresh := ?_, eofNM := ?_, gone := ?_, srcBuf := ?_, nl1 := ?_,
+                    eofSeen := ?_ }
     · exact h.pre.trans (List.prefix_append _ _)
     · rcases h.exact with hs | he
       · exact Or.inl hs
@@ -223,6 +228,12 @@ theorem DirInv.srcStep {c : Nat} {a a' : SrcV} {b : SinkV} (h : DirInv c a b)
     · intro hs _ hw
       have := (h.nl1 hs hp hw).2
       rw [hr] at this; cases this
+    · intro nm
+      rcases nm.2 with h1 | ⟨_, _, h3⟩
+      · have h1' : a.present = false := h1
+        rw [hp] at h1'; cases h1'
+      · have h3' : a.shutR = true := h3
+        rw [hr] at h3'; cases h3'
   | send moved rest hb hne hp =>
     have hev := h.srcEv hp
     have notNM : ¬ noMore a := by
@@ -237,7 +248,8 @@ theorem DirInv.srcStep {c : Nat} {a a' : SrcV} {b : SinkV} (h : DirInv c a b)
       | true => exact absurd (h.eofNM he) notNM
     refine { h with exact := ?_, conn := ?_, fresh := ?_, clean := ?_, eofNM := ?_, gone := ?_,
                     srcBuf := ?_, nl1 := ?_, stopOk := ?_,
-                    connOk := by rw [nConnect_append_single _ _ _ (notConnect_data c moved)]; exact h.connOk }
+                    connOk := by rw [nConnect_append_single _ _ _ (notConnect_data c moved)]; exact h.connOk,
+                    eofSeen := ?_ }
     · rcases h.exact with hs | he
       · exact Or.inl hs
       · right
@@ -264,6 +276,17 @@ theorem DirInv.srcStep {c : Nat} {a a' : SrcV} {b : SinkV} (h : DirInv c a b)
     · intro hh
       rw [hasStop_append_single _ _ _ (notStop_data c moved)] at hh
       exact h.stopOk hh
+    · intro nm
+      rcases nm.2 with h1 | ⟨h1, _, _⟩
+      · have h1' : a.present = false := h1
+        rw [hp] at h1'; cases h1'
+      · -- the mux side shut for writing with bytes still buffered: only after the sink shut its socket
+        have hw' : a.mwShutW = true := h1
+        by_cases hsaw : b.sawShut = true
+        · exact Or.inr (Or.inr hsaw)
+        · have := (h.nl1 (by simpa using hsaw) hp hw').1
+          rw [this] at hb
+          exact absurd (List.append_eq_nil_iff.mp hb.symm).1 hne
   | eof hp hb hr hw =>
     have hev := h.srcEv hp
     have hnd := notData_eof c
@@ -271,7 +294,8 @@ theorem DirInv.srcStep {c : Nat} {a a' : SrcV} {b : SinkV} (h : DirInv c a b)
       ⟨hev, Or.inr ⟨rfl, hb, hr⟩⟩
     refine { h with exact := ?_, conn := ?_, fresh := ?_, clean := ?_, eofNM := ?_, gone := ?_,
                     nl1 := ?_, stopOk := ?_,
-                    connOk := by rw [nConnect_append_single _ _ _ (notConnect_eof c)]; exact h.connOk }
+                    connOk := by rw [nConnect_append_single _ _ _ (notConnect_eof c)]; exact h.connOk,
+                    eofSeen := fun _ => Or.inl (by rw [hasEof_append]; simp [hasEof, isEof]) }
     · rcases h.exact with hs | he
       · exact Or.inl hs
       · right
@@ -303,7 +327,7 @@ theorem DirInv.srcStep {c : Nat} {a a' : SrcV} {b : SinkV} (h : DirInv c a b)
       (fun hh => by rw [hf.notStop] at hh; cases hh) hf.2
   | discard hp hw =>
     have hev := h.srcEv hp
-    refine { h with exact := ?_, fresh := ?_, eofNM := ?_, gone := ?_, srcBuf := ?_, nl1 := ?_ }
+    refine { h with exact := ?_, fresh := ?_, eofNM := ?_, gone := ?_, srcBuf := ?_, nl1 := ?_, eofSeen := ?_ }
     · rcases h.exact with hs | he
       · exact Or.inl hs
       · cases hsaw : b.sawShut with
@@ -322,8 +346,13 @@ theorem DirInv.srcStep {c : Nat} {a a' : SrcV} {b : SinkV} (h : DirInv c a b)
       · exact Or.inr ⟨noMore_of_flags nm rfl (Or.inl rfl) id (fun _ => rfl) (fun _ => rfl), hd⟩
     · intro _; rfl
     · intro _ _ _; exact ⟨rfl, rfl⟩
+    · intro _
+      by_cases hsaw : b.sawShut = true
+      · exact Or.inr (Or.inr hsaw)
+      · obtain ⟨hb0, hr0⟩ := h.nl1 (by simpa using hsaw) hp hw
+        exact h.eofSeen ⟨hev, Or.inr ⟨hw, hb0, hr0⟩⟩
   | flags r w os hr hw hos hk =>
-    refine { h with eofNM := ?_, gone := ?_, nl1 := ?_, stopOk := ?_ }
+    refine { h with eofNM := ?_, gone := ?_, nl1 := ?_, stopOk := ?_, eofSeen := ?_ }
     · intro he
       exact noMore_of_flags (h.eofNM he) rfl (Or.inl rfl) hw id hr
     · intro hb1 hb2
@@ -336,10 +365,27 @@ theorem DirInv.srcStep {c : Nat} {a a' : SrcV} {b : SinkV} (h : DirInv c a b)
         exact ⟨x, hr y⟩
       · rw [hs] at h1; cases h1
     · intro hh; exact hos (h.stopOk hh)
-  | remove hp hb =>
+    · intro nm
+      by_cases hsaw : b.sawShut = true
+      · exact Or.inr (Or.inr hsaw)
+      · apply h.eofSeen
+        refine ⟨nm.1, ?_⟩
+        rcases nm.2 with h1 | ⟨h1, h2, h3⟩
+        · exact Or.inl h1
+        · have hw1 : w = true := h1
+          have hb1 : a.buf = [] := h2
+          cases hpr : a.present with
+          | false => exact Or.inl rfl
+          | true =>
+            rcases hk hw1 with hm | hm
+            · obtain ⟨x, y⟩ := h.nl1 (by simpa using hsaw) hpr hm
+              exact Or.inr ⟨hm, x, y⟩
+            · exact absurd hm hsaw
+  | remove hp hb hd =>
     have hev := h.srcEv hp
     have nm' : noMore { a with present := false, buf := [] } := ⟨hev, Or.inl rfl⟩
-    refine { h with exact := ?_, fresh := ?_, eofNM := ?_, gone := ?_, srcBuf := ?_, srcEv := ?_, nl1 := ?_ }
+    refine { h with exact := ?_, fresh := ?_, eofNM := ?_, gone := ?_, srcBuf := ?_, srcEv := ?_, nl1 := ?_,
+                    eofSeen := ?_ }
     · rcases h.exact with hs | he
       · exact Or.inl hs
       · rcases hb with hb | hb
@@ -354,12 +400,18 @@ theorem DirInv.srcStep {c : Nat} {a a' : SrcV} {b : SinkV} (h : DirInv c a b)
     · intro _; rfl
     · intro hp'; cases hp'
     · intro _ hp'; cases hp'
+    · intro _
+      rcases hd with ⟨hw1, hr1⟩ | hk
+      · rcases hb with hb | hb
+        · exact h.eofSeen ⟨hev, Or.inr ⟨hw1, hb, hr1⟩⟩
+        · exact Or.inr (Or.inr hb)
+      · exact Or.inr (Or.inr hk)
   | create he r os hos =>
     obtain ⟨hnp, hc0, hns⟩ := h.fresh he
     have hbuf := h.srcBuf hnp
     have notNM : ¬ noMore a := fun nm => by have := nm.1; rw [he] at this; cases this
     refine { h with exact := ?_, fresh := ?_, eofNM := ?_, gone := ?_, srcBuf := ?_, srcEv := ?_,
-                    nl1 := ?_, stopOk := ?_ }
+                    nl1 := ?_, stopOk := ?_, eofSeen := ?_ }
     · rcases h.exact with hs | hex
       · exact Or.inl hs
       · right
@@ -374,6 +426,10 @@ theorem DirInv.srcStep {c : Nat} {a a' : SrcV} {b : SinkV} (h : DirInv c a b)
     · intro _; rfl
     · intro _ _ hw; cases hw
     · intro hh; rw [hasStop_noStream c a.out hns] at hh; cases hh
+    · intro nm
+      rcases nm.2 with h1 | ⟨h1, _, _⟩
+      · cases h1
+      · cases h1
 
 /-- A step allowed while the sink is open is allowed in any case. -/
 theorem SrcStep.mono {c : Nat} {a a' : SrcV} (k : Bool) (st : SrcStep c false a a') : SrcStep c k a a' := by
@@ -386,7 +442,7 @@ theorem SrcStep.mono {c : Nat} {a a' : SrcV} (k : Bool) (st : SrcStep c false a 
   | discard hp hw => exact .discard a hp hw
   | flags r w os hr hw hos hk =>
     exact .flags a r w os hr hw hos (fun h => (hk h).elim Or.inl (fun h' => by cases h'))
-  | remove hp hb => exact .remove a hp (hb.elim Or.inl (fun h' => by cases h'))
+  | remove hp hb hd => exact .remove a hp (hb.elim Or.inl (fun h' => by cases h')) (hd.elim Or.inl (fun h' => by cases h'))
   | create he r os hos => exact .create a he r os hos
 
 theorem srcStar_lift {c : Nat} {a a' : SrcV} (k : Bool) (h : Star (SrcStep c false) a a') :
@@ -438,7 +494,7 @@ theorem DirInv.sinkStep {c : Nat} {a : SrcV} {b b' : SinkV} (h : DirInv c a b) (
       · exact h2 (h.shutOk hp h')
       · exact h'
     refine { h with exact := ?_, shutOk := hshut, gone := ?_, dead := ?_, goneShut := fun he hp => h2 (h.goneShut he hp),
-                    nl1 := ?_ }
+                    nl1 := ?_, eofSeen := fun nm => (h.eofSeen nm).imp_right (Or.imp (fun x => ⟨x.1, h3 x.2⟩) h2) }
     · rcases h.exact with hs | he
       · exact Or.inl (h2 hs)
       · exact Or.inr he
@@ -494,11 +550,15 @@ theorem DirInv.sinkStar {c : Nat} {a : SrcV} {b b' : SinkV} (h : DirInv c a b)
 /-! ### frame delivery: the joint transitions -/
 
 /-- The head frame is neither DATA of `c` nor (while the sink does not exist yet) the CONNECT of
-`c`: popping it changes nothing for this direction. -/
-theorem DirInv.pop {c : Nat} {a : SrcV} {b : SinkV} (h : DirInv c a b) (fr : Frame) (rest : List Frame)
+`c`: popping it changes nothing for this direction, except that an EOF of `c` may set the sink's
+`shut_read` (`r`): `hgone` and `he` say how. -/
+theorem DirInv.popR {c : Nat} {a : SrcV} {b : SinkV} (h : DirInv c a b) (fr : Frame) (rest : List Frame)
     (ho : a.out = fr :: rest) (hd : isData c fr = false)
-    (hc : isConnect c fr = true → b.ever = true) :
-    DirInv c { a with out := rest } b := by
+    (hc : isConnect c fr = true → b.ever = true)
+    (r : Bool) (hr : b.mwShutR = true → r = true)
+    (hgone : r = true → b.mwShutR = true ∨ (noMore a ∧ dataOf c rest = []))
+    (he : isEof c fr = true → (b.ever = true ∧ r = true) ∨ b.sawShut = true) :
+    DirInv c { a with out := rest } { b with mwShutR := r } := by
   have hdo : dataOf c a.out = dataOf c rest := by rw [ho]; simp [dataOf, hd]
   have hnc : isConnect c fr = false := by
     cases hcc : isConnect c fr with
@@ -513,10 +573,10 @@ theorem DirInv.pop {c : Nat} {a : SrcV} {b : SinkV} (h : DirInv c a b) (fr : Fra
   have hcnt : nConnect c rest = nConnect c a.out := by rw [ho, nConnect_cons, hnc]; simp
   refine { h with exact := ?_, conn := ?_, fresh := ?_, clean := ?_, eofNM := ?_, gone := ?_,
                   stopOk := fun hh => h.stopOk (by rw [ho]; exact hasStop_tail hh),
-                  connOk := by rw [hcnt]; exact h.connOk }
-  · rcases h.exact with hs | he
+                  connOk := by rw [hcnt]; exact h.connOk, eofSeen := ?_ }
+  · rcases h.exact with hs | he'
     · exact Or.inl hs
-    · exact Or.inr (by rw [← hdo]; exact he)
+    · exact Or.inr (by rw [← hdo]; exact he')
   · intro hbe
     obtain ⟨h1, h2⟩ := h.conn hbe
     refine ⟨h1, ?_⟩
@@ -535,9 +595,34 @@ theorem DirInv.pop {c : Nat} {a : SrcV} {b : SinkV} (h : DirInv c a b) (fr : Fra
     rw [ho]; simp only [hasEof, List.any_cons]
     simp only [hasEof] at hh; rw [hh]; simp
   · intro hb1 hb2
-    rcases h.gone hb1 hb2 with hs | ⟨nm, hd'⟩
-    · exact Or.inl hs
-    · exact Or.inr ⟨nm, by rw [← hdo]; exact hd'⟩
+    have old : (b.present = false ∨ b.mwShutR = true) → b.sawShut = true ∨ (noMore a ∧ dataOf c rest = []) := by
+      intro hh
+      rcases h.gone hb1 hh with hs | ⟨nm, hd'⟩
+      · exact Or.inl hs
+      · exact Or.inr ⟨nm, by rw [← hdo]; exact hd'⟩
+    rcases hb2 with hp | hr'
+    · exact old (Or.inl hp)
+    · rcases hgone hr' with hm | hm
+      · exact old (Or.inr hm)
+      · exact Or.inr hm
+  · intro nm
+    rcases h.eofSeen nm with hh | ⟨hev, hm⟩ | hs
+    · rw [ho] at hh
+      simp only [hasEof, List.any_cons, Bool.or_eq_true] at hh
+      rcases hh with hh | hh
+      · rcases he hh with ⟨x, y⟩ | x
+        · exact Or.inr (Or.inl ⟨x, y⟩)
+        · exact Or.inr (Or.inr x)
+      · exact Or.inl hh
+    · exact Or.inr (Or.inl ⟨hev, hr hm⟩)
+    · exact Or.inr (Or.inr hs)
+
+theorem DirInv.pop {c : Nat} {a : SrcV} {b : SinkV} (h : DirInv c a b) (fr : Frame) (rest : List Frame)
+    (ho : a.out = fr :: rest) (hd : isData c fr = false)
+    (hc : isConnect c fr = true → b.ever = true)
+    (he : isEof c fr = true → (b.ever = true ∧ b.mwShutR = true) ∨ b.sawShut = true) :
+    DirInv c { a with out := rest } b :=
+  h.popR fr rest ho hd hc b.mwShutR id Or.inl he
 
 /-- A DATA frame of `c` reaches the sink's registered wrapper. -/
 theorem DirInv.dataAccepted {c : Nat} {a : SrcV} {b : SinkV} (h : DirInv c a b) (fr : Frame)
@@ -556,7 +641,17 @@ theorem DirInv.dataAccepted {c : Nat} {a : SrcV} {b : SinkV} (h : DirInv c a b) 
                   stopOk := fun hh => h.stopOk (by rw [ho]; exact hasStop_tail hh),
                   connOk := (by
                     show nConnect c rest = 0 ∨ (nConnect c rest = 1 ∧ b.ever = false)
-                    rw [hcnt]; exact h.connOk) }
+                    rw [hcnt]; exact h.connOk),
+                  eofSeen := (by
+                    intro nm
+                    have hne : isEof c fr = false := by
+                      simp only [isData, Bool.and_eq_true, beq_iff_eq] at hd
+                      simp only [isEof, hd.2]
+                      have := cmds_distinct.1
+                      simp [this]
+                    have := h.eofSeen nm
+                    rw [ho] at this
+                    simpa [hasEof, hne] using this) }
   · rcases h.exact with hs | he
     · exact Or.inl hs
     · exact Or.inr (by simp only [he, hdo]; simp)
@@ -603,11 +698,22 @@ theorem DirInv.dataDropped {c : Nat} {a : SrcV} {b : SinkV} (h : DirInv c a b) (
       rcases this with h1 | ⟨h1, _⟩ <;> cases h1
   have hcnt : nConnect c rest = nConnect c a.out := by rw [ho, nConnect_cons, hnc]; simp
   have hck : nConnect c rest = 0 ∨ (nConnect c rest = 1 ∧ b.ever = false) := by rw [hcnt]; exact h.connOk
+  have hne : isEof c fr = false := by
+    simp only [isData, Bool.and_eq_true, beq_iff_eq] at hd
+    simp only [isEof, hd.2]
+    have := cmds_distinct.1
+    simp [this]
+  have hseen : noMore a → hasEof c rest = true ∨ (b.ever = true ∧ b.mwShutR = true) ∨ b.sawShut = true := by
+    intro nm
+    have := h.eofSeen nm
+    rw [ho] at this
+    simpa [hasEof, hne] using this
   rcases h.gone hev hg with hs | ⟨nm, hd'⟩
   · -- blocked: the exact equation is no longer needed
     refine { h with exact := Or.inl hs, conn := ?_, fresh := ?_, clean := ?_, eofNM := ?_,
                     gone := fun _ _ => Or.inl hs,
-                    stopOk := fun hh => h.stopOk (by rw [ho]; exact hasStop_tail hh), connOk := hck }
+                    stopOk := fun hh => h.stopOk (by rw [ho]; exact hasStop_tail hh), connOk := hck,
+                    eofSeen := hseen }
     · intro hbe; rw [hev] at hbe; cases hbe
     · intro hae
       obtain ⟨_, _, h3⟩ := h.fresh hae
@@ -622,7 +728,8 @@ theorem DirInv.dataDropped {c : Nat} {a : SrcV} {b : SinkV} (h : DirInv c a b) (
   · rw [hdo] at hd'
     obtain ⟨hfd, hrest⟩ := List.append_eq_nil_iff.mp hd'
     refine { h with exact := ?_, conn := ?_, fresh := ?_, clean := ?_, eofNM := ?_, gone := ?_,
-                    stopOk := fun hh => h.stopOk (by rw [ho]; exact hasStop_tail hh), connOk := hck }
+                    stopOk := fun hh => h.stopOk (by rw [ho]; exact hasStop_tail hh), connOk := hck,
+                    eofSeen := hseen }
     · rcases h.exact with hs | he
       · exact Or.inl hs
       · exact Or.inr (by simp [he, hdo, hfd, hrest])
@@ -638,7 +745,7 @@ theorem DirInv.dataDropped {c : Nat} {a : SrcV} {b : SinkV} (h : DirInv c a b) (
 
 /-- An EOF frame of `c` reaches the sink's registered wrapper (`setnoread`). -/
 theorem DirInv.eofAccepted {c : Nat} {a : SrcV} {b : SinkV} (h : DirInv c a b) (fr : Frame)
-    (rest : List Frame) (ho : a.out = fr :: rest) (he : isEof c fr = true) :
+    (rest : List Frame) (ho : a.out = fr :: rest) (he : isEof c fr = true) (hp : b.present = true) :
     DirInv c { a with out := rest } { b with mwShutR := true } := by
   have hnd : isData c fr = false := by
     simp only [isEof, Bool.and_eq_true, beq_iff_eq] at he
@@ -650,13 +757,13 @@ theorem DirInv.eofAccepted {c : Nat} {a : SrcV} {b : SinkV} (h : DirInv c a b) (
     simp only [isConnect, he.2]
     have := cmds_distinct.2.2.2.2.1
     simp [this]
-  have hpop := h.pop fr rest ho hnd (fun hc => by rw [hnc] at hc; cases hc)
   have hasE : hasEof c a.out = true := by rw [ho]; simp [hasEof, he]
   have nm := h.eofNM hasE
   have hclean := h.clean
   rw [ho] at hclean
   have hrest : dataOf c rest = [] := hclean.1 he
-  refine { hpop with gone := fun _ _ => Or.inr ⟨nm, hrest⟩ }
+  exact h.popR fr rest ho hnd (fun hc => by rw [hnc] at hc; cases hc) true (fun _ => rfl)
+    (fun _ => Or.inr ⟨nm, hrest⟩) (fun _ => Or.inl ⟨h.snkEv hp, rfl⟩)
 
 /-- The CONNECT of `c` creates the sink handler (server `new_channel`). `sw`/`saw` are the
 wrapper's `shut_write` and the socket's state after the `try_connect` made in the constructor. -/
@@ -689,7 +796,8 @@ theorem DirInv.connectCreates {c : Nat} {a : SrcV} {b : SinkV} (h : DirInv c a b
              rw [ho, nConnect_cons, hc] at hk
              rcases hk with hk | ⟨hk, _⟩
              · simp at hk
-             · simpa using hk) }
+             · simpa using hk),
+           eofSeen := ?_ }
   · rcases h.exact with hs | he
     · exact Or.inl (hmono hs)
     · exact Or.inr (by rw [he, hb0, hdo])
@@ -717,5 +825,17 @@ theorem DirInv.connectCreates {c : Nat} {a : SrcV} {b : SinkV} (h : DirInv c a b
       have := hmono hb
       have hs' : saw = false := hs
       rw [hs'] at this; cases this
+  · intro nm
+    have hne : isEof c fr = false := by
+      simp only [isConnect, Bool.and_eq_true, beq_iff_eq] at hc
+      simp only [isEof, hc.2]
+      have := cmds_distinct.2.2.2.2.1
+      simp [Ne.symm this]
+    rcases h.eofSeen nm with hh | ⟨hev, _⟩ | hs
+    · rw [ho] at hh
+      left
+      simpa [hasEof, hne] using hh
+    · rw [hbe] at hev; cases hev
+    · exact Or.inr (Or.inr (hmono hs))
 
 end Sshuttle.Tunnel
